@@ -184,7 +184,7 @@ def run_model_history(seed, transform=None):
         allnodes = list(page.nodes)
         pick = (rng.choice(content) if content and rng.random() < 0.85
                 else (rng.choice(allnodes) if allnodes else None))
-        kind = rng.randint(0, 10)
+        kind = rng.randint(0, 12)
         n = len(content)
         snap = snapshot(page, secs) if failure is None else None
         via = tgt
@@ -200,6 +200,12 @@ def run_model_history(seed, transform=None):
                 i = rng.randint(-n - 2, n + 2)
                 enc += [tgt, 2, i, len(newids)] + newids
                 T.set(i, val)
+            elif kind in (11, 12):
+                # slice assignment / deletion on the node list (what a multi-node string target does)
+                lo = rng.choice([None, rng.randint(-n - 1, n + 1)])
+                hi = rng.choice([None, rng.randint(-n - 1, n + 1)])
+                enc += [tgt, 11, NONE if lo is None else lo, NONE if hi is None else hi, len(newids)] + newids
+                T.nodes[lo:hi] = new
             elif kind in (3, 4, 5, 6) and pick is not None:
                 x = ids.of(pick)
                 if kind == 3:
@@ -219,7 +225,7 @@ def run_model_history(seed, transform=None):
                 j = rng.randint(0, len(secs) - 1)
                 caller = page if rng.random() < 0.7 else secs[rng.randint(0, len(secs) - 1)]
                 via = j
-                op = kind if kind in (7, 8, 9, 10) else 7 + rng.randint(0, 3)
+                op = kind if kind in (7, 8, 9, 10) else 7 + rng.randint(0, 3)  # kinds 3-6 without a pick land here too
                 if op == 7:
                     enc += [j, 7]
                     caller.remove(secs[j])
@@ -271,7 +277,7 @@ def run_oracle_history(seed):
         T = page if tgt < 0 else secs[tgt]
         snap = snapshot(page, secs)
         before_text = str(page)
-        kind = rng.randint(0, 5)
+        kind = rng.randint(0, 7)
         via = tgt
         desc = None
         try:
@@ -291,6 +297,21 @@ def run_oracle_history(seed):
                 if target:
                     desc = ("replace-str", target)
                     T.replace(target, "[[r%d]] tail" % step)
+            elif kind in (6, 7) and len(content) >= 2:
+                # a string that spans several nodes (cut inside the first and the last one)
+                i = rng.randint(0, len(content) - 2)
+                j = rng.randint(i + 2, len(content))
+                run = [str(n) for n in content[i:j]]
+                first = run[0][rng.randint(0, max(0, len(run[0]) - 1)):] if rng.random() < 0.5 else run[0]
+                last = run[-1][:rng.randint(1, max(1, len(run[-1])))] if rng.random() < 0.5 else run[-1]
+                target = first + "".join(run[1:-1]) + last
+                if target:
+                    if kind == 6:
+                        desc = ("remove-str", target)
+                        T.remove(target)
+                    else:
+                        desc = ("replace-str", target)
+                        T.replace(target, "R%d" % step)
             elif kind == 3:
                 desc = ("insert-str-value",)
                 T.insert(rng.randint(-3, 3), "a {{b%d}} c" % step)
@@ -311,7 +332,7 @@ def run_oracle_history(seed):
             failure = (step, "unexpected exception %r in %r" % (e, desc))
             break
         strict_via = via if (desc and desc[0] in ("insert-str-value", "append-str-value")) else None
-        msg = oracle(page, secs, snap, strict_via, ok) if desc and desc[0] not in ("remove-str", "insert_after-str", "replace-str") else oracle_loose(page, secs)
+        msg = oracle(page, secs, snap, strict_via, ok) if desc and desc[0] not in ("remove-str", "insert_after-str", "replace-str") else oracle_loose(page, secs, snap)
         if msg:
             failure = (step, "%s after %r" % (msg, desc))
             break
@@ -325,12 +346,14 @@ def run_oracle_history(seed):
     return failure, text
 
 
-def oracle_loose(page, secs):
-    """string-target edits may re-parse a whole run (_slice_replace): only validity is demanded"""
+def oracle_loose(page, secs, snap=None):
+    """string-target edits may re-parse a whole run (_slice_replace): validity is demanded, and that no
+    section gains a node that existed before and was outside it"""
     try:
         new_ids = [id(n) for n in page.nodes]
     except Exception as e:
         return "page cannot be read: %r" % (e,)
+    old_ids = {id(n) for n in snap[0]} if snap else set()
     for k, s in enumerate(secs):
         try:
             cur = [id(n) for n in s.nodes]
@@ -340,6 +363,10 @@ def oracle_loose(page, secs):
         a, b = s.nodes._start, s.nodes._stop
         if not (0 <= a <= b <= len(new_ids)) or cur != new_ids[a:b]:
             return "section %d is not a contiguous run of the page's nodes (bounds %s:%s)" % (k, a, b)
+        if snap:
+            was = {id(n) for n in snap[1 + k][0]}
+            if any((i in old_ids) and (i not in was) for i in cur):
+                return "section %d gained a node that was outside it" % k
     return None
 
 
